@@ -623,6 +623,54 @@ fn run<T: IteTable<'static, Ptr> + Default + 'static>(plan: &Plan, ctx: &mut Ctx
     Ok(())
 }
 
+/// "Counter period" history: two functions f and g over disjoint variables (so they share no node); f is
+/// conditioned a few times, then exactly M conditioning calls work on g only (a quiet phase for everything
+/// that belongs to f), then f is conditioned / quantified / composed again with other arguments. M sits next to
+/// the periods of narrow counters (2^8, 2^16) minus a small offset, so that some pair of calls on f is exactly
+/// one period apart: whatever the builder stamps, counts or memoises per call comes back into play precisely
+/// when a u8 / u16 counter has gone round.
+pub fn period_ops(o: &mut Rng, c: &mut Rng) -> Vec<Op> {
+    let mut ops: Vec<Op> = Vec::new();
+    // every operation below pushes exactly one handle: pool size == number of operations so far
+    let at = |ops: &Vec<Op>, j: usize| -> i64 { (2 * (ops.len() - 1 - j)) as i64 };
+    for v in [0i64, 1, 2, 4, 5, 6] {
+        ops.push(Op { c: 0, k: K_VAR, a: [v, 0, 0, 1] });
+    }
+    let bin = |o: &mut Rng| *o.pick(&[K_AND, K_OR, K_XOR, K_IFF]);
+    // f = (x0 . x1) . x2 at index 7, g = (x4 . x5) . x6 at index 9
+    let (k0, k1, k2, k3) = (bin(o), bin(o), bin(o), bin(o));
+    let a = [at(&ops, 0), at(&ops, 1), 0, 0];
+    ops.push(Op { c: 0, k: k0, a });
+    let a = [at(&ops, 6), at(&ops, 2), 0, 0];
+    ops.push(Op { c: 0, k: k1, a });
+    let a = [at(&ops, 3), at(&ops, 4), 0, 0];
+    ops.push(Op { c: 0, k: k2, a });
+    let a = [at(&ops, 8), at(&ops, 5), 0, 0];
+    ops.push(Op { c: 0, k: k3, a });
+    let (f, g) = (7usize, 9usize);
+    let (n1, n2) = (1 + o.below(4), 2 + o.below(5));
+    for _ in 0..n1 {
+        let a = [at(&ops, f), o.below(3) as i64, 0, o.below(2) as i64];
+        ops.push(Op { c: 0, k: K_COND, a });
+    }
+    let period: u64 = if c.below(4) == 0 { 256 } else { 65_536 };
+    let m = match c.below(8) {
+        0 => period + 1,
+        1 => period,
+        _ => period - 1 - c.below(2 * (n1 + n2) + 2),
+    };
+    for _ in 0..m {
+        let a = [at(&ops, g), 4 + o.below(3) as i64, 0, o.below(2) as i64];
+        ops.push(Op { c: 0, k: K_COND, a });
+    }
+    for _ in 0..n2 {
+        let k = *o.pick(&[K_COND, K_COND, K_EXISTS, K_COMPOSE]);
+        let a = if k == K_COMPOSE { [at(&ops, f), at(&ops, 6), o.below(3) as i64, 0] } else { [at(&ops, f), o.below(3) as i64, 0, o.below(2) as i64] };
+        ops.push(Op { c: 0, k, a });
+    }
+    ops
+}
+
 pub fn gen_operand(o: &mut Rng) -> i64 {
     let idx = match o.below(10) {
         0..=4 => o.below(4),
@@ -689,7 +737,14 @@ impl World for BddWorld {
             }
         }
         let mut ops = Vec::new();
-        for _ in 0..len {
+        // one run in 400 is a "counter period" history (see `period_ops`)
+        let period = c.below(400) == 0;
+        if period {
+            cfg.insert("nvars".into(), 7);
+            cfg.insert("period".into(), 1);
+            ops = period_ops(&mut o, &mut c);
+        }
+        for _ in 0..(if period { 0 } else { len }) {
             let caller = s.below(ncallers) as u8;
             let mut k = o.weighted(&w) as u8;
             if k == K_AUDIT && au.below(2) == 0 {
